@@ -60,6 +60,25 @@ pub fn public_view_check(
     }
 }
 
+/// A self-loop on a graph without self-loops that ALSO names an unknown node under the Error
+/// missing-node policy is rejected / dropped by two policies at once; the statement does not rank
+/// them, so the answer of either policy is accepted (the graph must be unchanged in both cases,
+/// which the public-view and err_unchanged clauses still check).
+fn either_order_ok(t: &Trans) -> bool {
+    use graphrs::MissingNodeStrategy;
+    let e = match t.op {
+        Op::AddEdge(e) => (e.u, e.v),
+        Op::AddEdgeTuple(u, v) => (*u, *v),
+        _ => return false,
+    };
+    e.0 == e.1
+        && !t.specs.self_loops
+        && t.specs.missing_node_strategy == MissingNodeStrategy::Error
+        && !t.ref_before.has(e.0)
+        && matches!(t.real_res, ResKind::NodeNotFound | ResKind::SelfLoopsFound | ResKind::Ok)
+        && (*t.real_res != ResKind::Ok || t.specs.self_loops_false_strategy == graphrs::SelfLoopsFalseStrategy::Drop)
+}
+
 impl E1Oracle for C01Oracle {
     fn transition(&mut self, t: &Trans, rec: &Recorder, c: &mut Counters) {
         let hist2: Vec<u16> = t.hist.iter().cloned().chain(std::iter::once(t.op_idx)).collect();
@@ -76,7 +95,7 @@ impl E1Oracle for C01Oracle {
         };
         c.inc("traces_validated_against_impl");
         // (a) result kind
-        if t.real_res != t.ref_res {
+        if t.real_res != t.ref_res && !either_order_ok(t) {
             fail("result_kind", &call, format!("expected {:?} got {:?}", t.ref_res, t.real_res));
         }
         match t.real_res {
